@@ -153,6 +153,25 @@ def lean_sources():
     return sorted(out)
 
 
+def import_closure(roots):
+    """project-local Lean files reachable from the given modules through `import` lines"""
+    seen, todo = set(), list(roots)
+    while todo:
+        m = todo.pop()
+        if m in seen:
+            continue
+        path = os.path.join(LEAN_DIR, m.replace('.', '/') + '.lean')
+        if not os.path.exists(path):
+            continue
+        seen.add(m)
+        with open(path) as f:
+            for line in f:
+                mm = re.match(r'\s*import\s+((?:PyPhysim|Drivers)\.\S+)', line)
+                if mm:
+                    todo.append(mm.group(1))
+    return sorted(os.path.join(LEAN_DIR, m.replace('.', '/') + '.lean') for m in seen)
+
+
 def audit_axioms(module, scratch):
     """#print axioms for every theorem of `module`.
     Returns {theorem: [axioms]} ; raises Infra if lean cannot run it."""
@@ -418,7 +437,9 @@ def prove(ctx, module, generated=(), drivers=(), scratch=None):
         ctx.tie_broken('theorem', module, 'lake build failed:\n' + '\n'.join(errs[:20]) + '\n' + out[-1500:])
         ctx.discharged = 0
         return False
-    hits = forbidden_scan(lean_sources())
+    # scan what this property's theorems and drivers are built from (its import closure)
+    roots = [module] + ['Drivers.' + d[4:].upper() for d in drivers if d.startswith('drv_')]
+    hits = forbidden_scan(import_closure(roots))
     if hits:
         ctx.tie_broken('audit', 'forbidden-construct', '\n'.join(hits))
     res, missing, raw = audit_axioms(module, scratch)
